@@ -10,8 +10,8 @@ from .. import simdb, simsched
 from . import conc
 from .conc import Mode, build_bank, populate_bank, dump_bank, exc_str, register
 
-CHECKED = ('bal', 'note')            # attributes covered by optimistic checks
-ATTRS = ('bal', 'note', 'rate', 'hits', 'tick')
+CHECKED = ('bal', 'note', 'cap')     # attributes covered by optimistic checks
+ATTRS = ('bal', 'note', 'rate', 'hits', 'tick', 'cap')
 NAMES = ('acct0', 'acct1', 'acct2')
 
 ISOLATION_ERRORS = (core.OptimisticCheckError, core.UnrepeatableReadError)
@@ -24,14 +24,14 @@ def is_isolation_error(e):
 def initial_store():
     st = {}
     for i, n in enumerate(NAMES):
-        st[n] = {'bal': 100, 'note': 'n%d' % i, 'rate': 1.5, 'hits': 0, 'tick': 0}
+        st[n] = {'bal': 100, 'note': 'n%d' % i, 'rate': 1.5, 'hits': 0, 'tick': 0, 'cap': None}
     return st
 
 
 def store_from_dump(d):
     st = {}
-    for (id_, name, bal, note, rate, hits, tick) in d['Acct']:
-        st[name] = {'bal': bal, 'note': note, 'rate': rate, 'hits': hits, 'tick': tick}
+    for (id_, name, bal, note, rate, hits, tick, cap) in d['Acct']:
+        st[name] = {'bal': bal, 'note': note, 'rate': rate, 'hits': hits, 'tick': tick, 'cap': cap}
     return st
 
 
@@ -153,6 +153,17 @@ class C20(Mode):
                         v = getattr(o, attr)
                         if (n, attr) not in rec.over and n not in rec.flushed and n not in rec.created:
                             rec.reads.setdefault((n, attr), []).append(v)
+                    elif op == 'read_dict':
+                        # the documented bulk getter: to_dict() reads the attributes it returns
+                        n = NAMES[st[1] % 3]
+                        attr = ATTRS[st[2] % len(ATTRS)]
+                        o = self._obj(rec, handles, n)
+                        if o is None:
+                            continue
+                        d = o.to_dict(only=[attr]) if (st[1] + st[2]) % 2 else o.to_dict()
+                        for k in ATTRS:
+                            if k in d and (n, k) not in rec.over and n not in rec.flushed and n not in rec.created:
+                                rec.reads.setdefault((n, k), []).append(d[k])
                     elif op == 'write':
                         n = NAMES[st[1] % 3]
                         attr = ATTRS[st[2] % len(ATTRS)]
@@ -164,6 +175,8 @@ class C20(Mode):
                             val = 's%d' % val
                         elif attr == 'rate':
                             val = float(val) + 0.5
+                        elif attr == 'cap' and si % 2:
+                            val = None
                         setattr(o, attr, val)
                         rec.over.add((n, attr))
                         rec.pending[(n, attr)] = val
@@ -258,7 +271,7 @@ conc.MODES['c20'] = C20
 # c21: repeated reads return the same value or fail loudly
 
 ITEM_ATTRS = ('tag', 'qty', 'acct')
-ACCT_RATTRS = ('bal', 'note', 'rate', 'hits', 'name')
+ACCT_RATTRS = ('bal', 'note', 'rate', 'hits', 'name', 'cap')
 
 
 @register
@@ -411,9 +424,9 @@ class C21(Mode):
                     if op == 'upd':
                         a = Acct.get(name=NAMES[st[1] % 3])
                         if a is not None:
-                            attr = ('bal', 'note', 'rate', 'hits', 'tick')[st[2] % 5]
+                            attr = ('bal', 'note', 'rate', 'hits', 'tick', 'cap', 'cap')[st[2] % 7]
                             val = {'bal': 70000 + u, 'note': 'w%d' % u, 'rate': u + 0.25, 'hits': 80000 + u,
-                                   'tick': 90000 + u}[attr]
+                                   'tick': 90000 + u, 'cap': (40000 + u) if (a.cap is None or u % 3) else None}[attr]
                             setattr(a, attr, val)
                     elif op == 'upd_item':
                         i = Item.get(id=1 + st[1] % 6)
